@@ -135,6 +135,7 @@ class Chan(channel.SSHChannel):
 
     def stopWriting(self):
         self.hints.append("stop")
+        self.world.stop_writing(self)
 
 
 class Conn(connection.SSHConnection):
@@ -168,6 +169,8 @@ class World:
         self.cfg = {}
         self.ext_runs = {}                     # (index, side) -> (type changes among writeExtended calls since ext data was last fully sent, last type)
         self.reentrant_budget = 8              # writes issued from inside callbacks (keeps echo ping-pong finite)
+        self.cur_write = []                    # stack of (index, side, kind) of application write calls in progress
+        self.lose_origin = {}                  # (index, side) -> where the application called loseConnection() ("app" / hook name)
 
     # ---- oracle plumbing
     def fail(self, clause, witness, detail):
@@ -268,17 +271,21 @@ class World:
             self.ext_runs[(index, side)] = (cnt + (stream != last), stream)
         self.ledger.wrote(side, c.id, stream, data)
         self.sim.event("app", side, index, how, stream, n)
-        with self.sim.guard("api-raised", how):
-            if how == "write":
-                c.write(data)
-            elif how == "writeSequence":
-                cut = [data[i * n // parts:(i + 1) * n // parts] for i in range(parts)]
-                kind = self.sim.draw_choice(["list", "tuple", "generator"], "iovec")   # any iterable of bytes is a legal argument
-                if kind == "generator":
-                    self.sim.probe("writeSequence_one_shot_iterable")
-                c.writeSequence(cut if kind == "list" else tuple(cut) if kind == "tuple" else (x for x in cut))
-            else:
-                c.writeExtended(int(stream[3:]), data)
+        self.cur_write.append((index, side, "data" if stream == "data" else "ext"))
+        try:
+            with self.sim.guard("api-raised", how):
+                if how == "write":
+                    c.write(data)
+                elif how == "writeSequence":
+                    cut = [data[i * n // parts:(i + 1) * n // parts] for i in range(parts)]
+                    kind = self.sim.draw_choice(["list", "tuple", "generator"], "iovec")   # any iterable of bytes is a legal argument
+                    if kind == "generator":
+                        self.sim.probe("writeSequence_one_shot_iterable")
+                    c.writeSequence(cut if kind == "list" else tuple(cut) if kind == "tuple" else (x for x in cut))
+                else:
+                    c.writeExtended(int(stream[3:]), data)
+        finally:
+            self.cur_write.pop()
         self.raise_pending()
         h = self.ledger.pair_of(side, c.id).half[side]
         if h.pending():
@@ -300,12 +307,13 @@ class World:
             return False
         return self.ext_runs.get((index, side), (0, None))[0] >= 2
 
-    def app_lose(self, index, side):
+    def app_lose(self, index, side, origin="app"):
         c = self.chans[index][side]
         self.writable[(index, side)] = False
+        self.lose_origin.setdefault((index, side), origin)
         self.ledger.close_requested(side, c.id)
         h = self.ledger.pair_of(side, c.id).half[side]
-        self.sim.event("app", side, index, "loseConnection", "pending=%d" % h.pending())
+        self.sim.event("app", side, index, "loseConnection", "pending=%d" % h.pending(), origin)
         if h.pending():
             self.flags["close_pending"] += 1
             self.sim.fault("close_with_data_buffered")
@@ -337,7 +345,55 @@ class World:
             self.sim.probe("write_from_dataReceived")
             self.app_write(chan.index, chan.side, "write", "data", self.sim.draw_int(1, 4, "echolen"))
 
+    def stop_writing(self, chan):
+        """The application's stopWriting() hook.  It runs in the middle of whatever made the channel stall - the application's
+        own write()/writeExtended() call, or the replay of buffered data inside a WINDOW_ADJUST - and a hook may call back into
+        its channel: hang up gracefully on a consumer that is too slow (loseConnection()), or write once more (the hint "can be
+        ignored", e.g. a note on the other stream that output is stalling)."""
+        mode = self.cfg.get("on_stop")
+        if not mode or self.reentrant_budget <= 0 or not self.can_write(chan.index, chan.side):
+            return
+        if not self.sim.draw_bool(0.5, "onstop"):
+            return
+        # Workload shaping only (what a real application knows: which of its own write calls, if any, it is inside of).
+        mine = [k for (i, s, k) in self.cur_write if (i, s) == (chan.index, chan.side)]
+        direct = mine[-1] if mine else None         # None: the stall is a replay of buffered data (addWindowBytes)
+        act = mode if mode != "either" else self.sim.draw_choice(["lose", "write"], "onstop_act")
+        if act == "lose":
+            if direct is None and not self.cfg.get("hunt_hook_lose_in_replay"):
+                return
+            self.reentrant_budget -= 1
+            self.sim.fault("lose_from_stopWriting")
+            if direct is None:
+                self.sim.probe("lose_from_stopWriting_in_replay")
+            self.app_lose(chan.index, chan.side, origin="stopWriting")
+            return
+        kinds = [direct] if direct else []
+        if direct is None and self.cfg.get("hunt_hook_write_in_replay"):
+            kinds = ["data", "ext"]
+        elif direct and self.cfg.get("hunt_hook_write_other_kind"):
+            kinds = [direct, "ext" if direct == "data" else "data"]
+        if not kinds:
+            return
+        kind = self.sim.draw_choice(kinds, "onstop_kind")
+        self.reentrant_budget -= 1
+        self.sim.fault("write_from_stopWriting")
+        if direct is None:
+            self.sim.probe("write_from_stopWriting_in_replay")
+        elif kind != direct:
+            self.sim.probe("write_from_stopWriting_other_kind")
+        if kind == "ext":
+            self.app_write(chan.index, chan.side, "writeExtended", "ext%d" % self.sim.draw_choice(self.cfg["ext_types"], "onstop_etype"), self.sim.draw_int(0, 4, "len"))
+        else:
+            self.app_write(chan.index, chan.side, "write", "data", self.sim.draw_int(0, 4, "len"))
+
     def start_writing(self, chan):
+        if self.cfg.get("lose_on_start") and self.reentrant_budget > 0 and self.can_write(chan.index, chan.side) and self.sim.draw_bool(0.3, "onstart_lose"):
+            # an application that had finished and was only waiting for room hangs up from the hook
+            self.reentrant_budget -= 1
+            self.sim.fault("lose_from_startWriting")
+            self.app_lose(chan.index, chan.side, origin="startWriting")
+            return
         if self.cfg.get("write_on_start") and self.reentrant_budget > 0 and self.can_write(chan.index, chan.side) and self.sim.draw_bool(0.5, "onstart"):
             self.reentrant_budget -= 1
             self.sim.probe("write_from_startWriting")
@@ -359,6 +415,14 @@ class World:
                     sim.check("stalled-with-window", False, "+".join(h.pending_kinds()),
                               "%s holds %d unsent bytes (%r) on channel %r although %d bytes of window are known to it (ctx %s)"
                               % (x, pend, h.pending_streams(), p.key, h.window_known(), self.ctx))
+                # "a requested close is sent ... after all buffered data has been sent": once nothing the application wrote is
+                # unsent, a close it asked for is on the wire by the end of the operation that sent the last byte
+                if h.close_requested and pend == 0 and not h.close_sent:
+                    key = [i for i, lc in enumerate(self.chans) if lc[x] is not None and lc[x].id == p.ids.get(x)]
+                    origin = self.lose_origin.get((key[0], x), "app") if key else "app"
+                    sim.check("close-never-sent", False, "requested-from=" + origin,
+                              "%s asked to close channel %r (loseConnection() called from %s); everything written has been sent, "
+                              "yet no CHANNEL_CLOSE has been sent by the end of this operation (ctx %s)" % (x, p.key, origin, self.ctx))
         for s in "AB":
             sim.check("no-unimplemented", self.trans[s].unimplemented == 0, s, "sendUnimplemented called")
 
@@ -386,7 +450,13 @@ def run(sim):
     big = sim.draw_choice([0, 0, 1], "big_writes")
     lose_w = sim.draw_choice([2, 1, 4], "lose_weight")
     w.cfg = {"nchan": nchan, "ext_types": ext_types, "allow_window_1": tiny_window, "hunt_close_ext": hunt_close_ext, "big_writes": big, "lose_weight": lose_w,
-             "echo": sim.draw_bool(0.2, "echo_app"), "write_on_start": sim.draw_bool(0.2, "write_on_start")}
+             "echo": sim.draw_bool(0.2, "echo_app"), "write_on_start": sim.draw_bool(0.2, "write_on_start"),
+             # application hooks that call back into their channel (first item = plain hooks)
+             "on_stop": sim.draw_choice([None, None, "lose", None, "write", "either"], "on_stop"),
+             "lose_on_start": sim.draw_bool(0.1, "lose_on_start"),
+             "hunt_hook_lose_in_replay": sim.draw_bool(0.0, "hunt_hook_lose_in_replay"),
+             "hunt_hook_write_other_kind": sim.draw_bool(0.0, "hunt_hook_write_other_kind"),
+             "hunt_hook_write_in_replay": sim.draw_bool(0.0, "hunt_hook_write_in_replay")}
     sim.config = dict(w.cfg)
     nsteps = sim.draw_int(8, 70 * sim.depth, "nsteps")
     opened = 0
